@@ -252,6 +252,18 @@ CLAIMED["C41"] = (
     "DESIGN.md section 6 C41",
 )
 
+CLAIMED["C46"] = (
+    "SparseNdArray.add / get are executed for enumerated and sampled histories of up to three batches of integer "
+    "coordinates (duplicates inside and across batches, additive and overwriting, 1-2 dimensions, scalar and "
+    "2-vector values) with SYMBOLIC stored values, against a Python dictionary maintained by the harness. z3 "
+    "decides, for all values, that every single and multi-coordinate read returns the dictionary's value; "
+    "reads of never-inserted coordinates must raise; no coordinate is stored twice. Stated plainly: the "
+    "coordinate part is a case split (a symbolic integer would be concretised by np.unique / the KD-tree).",
+    "Floats as exact reals; coordinates in a 3-point box per axis; <= 3 batches of <= 2 points.",
+    "symbolic execution of SparseNdArray with symbolic values + SMT; case split on coordinates",
+    "DESIGN.md section 6 C46",
+)
+
 NOT_APPLICABLE = {
     "C11": "MPFA local systems are inverted in LAPACK/numba kernels on data-dependent block structures; a symbolic inverse of the interaction-region blocks is beyond z3/cvc5 and with concrete matrices nothing quantified remains for a solver.",
     "C13": "MPSA: same obstacle as C11 with 2-3x larger local systems.",
